@@ -20,6 +20,7 @@ EXPLANATION = (
     '62-bit constants equal slice_codec\'s, tags are checked against 0..=i32::MAX and implicit enum bounds are (0, i32::MAX); (6) '
     'rule-precondition ledger: the branch conditions dominating each rule\'s diagnostic (and each call of a rule function) equal the reviewed '
     'ledger - a rule that fires under narrower, wider or other conditions is reported.')
+THOROUGH_RERUN = ['release']     # the same rules over the release build (no debug assertions): verified clean on the pinned tree
 ASSUMPTIONS = ['rustc type checking and MIR construction', 'the reviewed precondition ledgers (ledgers/guards_*.json) state the intended conditions of each rule']
 VV = "<slicec::validators::ValidatorVisitor<'a> as slicec::visitor::Visitor>::"
 
